@@ -227,4 +227,29 @@ theorem jstore_hasMany_eq (s : JStore) (as : List Addr) : s.hasMany as = as.filt
   rw [chainHasMany_eq, srcHasMany_eq]
   simp only [List.map_map, List.filter_map, Function.comp_def, Bool.false_or, List.map_id', JStore.has, Bool.or_assoc]
 
+
+def JOp.isFlatten : JOp → Bool
+  | .flatten => true
+  | _ => false
+
+theorem cached_nil_foldl : ∀ (ops : List JOp) (s : JStore), s.j.cached = [] → (∀ op ∈ ops, op.isFlatten = false) →
+    (ops.foldl JStore.apply s).j.cached = []
+  | [], _, h, _ => h
+  | op :: rest, s, h, hn => by
+    apply cached_nil_foldl rest (s.apply op) _ (fun o ho => hn o (List.mem_cons_of_mem _ ho))
+    have := hn op (List.mem_cons_self ..)
+    cases op with
+    | put a d => simp only [JStore.apply, JStore.put]; split <;> exact h
+    | commit => simpa [JStore.apply, JStore.flush] using h
+    | flatten => simp [JOp.isFlatten] at this
+
+/-- before any flatten, iterating the journal source reports written chunks only, under their own addresses -/
+theorem jstore_iterate_sound (ops : List JOp) (hn : ∀ op ∈ ops, op.isFlatten = false) (p : Addr × Bytes)
+    (hp : p ∈ (jrun ops).j.iterate) : p ∈ jwritten ops := by
+  obtain ⟨w, hw, hmem⟩ := jholds_run ops
+  have hc : (jrun ops).j.cached = [] := cached_nil_foldl ops _ rfl hn
+  simp only [JSrc.iterate, hc, List.map_nil, List.append_nil] at hp
+  exact (hmem p).mp (hw.novel_sub p hp)
+
+
 end DoltVerif.NbsStore
